@@ -311,7 +311,7 @@ def thresholds(result):
             continue
         c = [lit - 1, lit, lit + 1, 2 * lit]
         for s in ELEM_SIZES:
-            c += [lit // s, lit // s + 1]
+            c += [lit // s, lit // s + 1, 2 * (lit // s) + 2]
         out |= {x for x in c if 2 <= x <= 2 ** 21}
     return sorted(x for x in out if x > 8)
 
